@@ -111,13 +111,13 @@ def run_case(cfg):
     else: o = bayesian.BayesianOptimizationOracle(max_trials=cfg["max_trials"] or 6, num_initial_points=2, **common)
     d = tempfile.mkdtemp(prefix="ktv05_")
     o._set_project_dir(d, "p"); o._display.verbose = 0
-    issued = []; held = {}; bad = None
+    issued = []; held = {}; bad = None; ended = 0
     try:
         for step in range(cfg["nsteps"]):
             w = rng.randrange(cfg["W"]); tn = "w%d" % w
             if tn in held and rng.random() < 0.75:
-                t = held.pop(tn)
-                if cfg["grow"] and rng.random() < 0.5:
+                t = held.pop(tn); ended += 1
+                if cfg["grow"] and ended > cfg.get("grow_after", 0) and rng.random() < 0.5:
                     with t.hyperparameters.name_scope("late"):
                         gen_space(random.Random(late_seed), t.hyperparameters)
                 x = rng.random()
@@ -151,6 +151,14 @@ def gen(rng):
     cfg = lc.gen_config(rng)
     cfg["grow"] = rng.random() < 0.35
     cfg["nsteps"] = rng.randint(10, 40)
+    cfg["grow_after"] = rng.choice([0, 0, 1, 3, 6])
+    if rng.random() < 0.25:
+        # values carried over from trials issued before the space grew: Hyperband promotions, retries, Bayesian/grid successors
+        cfg["kind"] = rng.choice(["hyperband", "hyperband", "grid", "random"]); cfg["grow"] = True; cfg["grow_after"] = rng.randint(2, 10)
+        cfg["W"] = rng.randint(3, 6); cfg["nsteps"] = rng.randint(60, 120)
+        if cfg["kind"] == "hyperband":
+            cfg.update(max_trials=None, max_epochs=rng.choice([4, 9]), factor=rng.choice([2, 3]))
+        cfg["max_retries"] = rng.choice([0, 1, 2])
     if cfg["kind"] == "bayes":
         cfg["max_trials"] = rng.choice([3, 4, 5]); cfg["nsteps"] = 16
     if cfg["kind"] == "grid":
